@@ -60,6 +60,22 @@ impl vstd::std_specs::convert::FromSpecImpl<IllFormedError> for Error {
     open spec fn obeys_from_spec() -> bool { true }
     open spec fn from_spec(e: IllFormedError) -> Self { Error::IllFormed(e) }
 }
+pub use io::Error as IoError;
+pub use std::sync::Arc;
+pub use core::ops::Deref;
+impl vstd::std_specs::convert::FromSpecImpl<IoError> for Error {
+    open spec fn obeys_from_spec() -> bool { false }
+    open spec fn from_spec(e: IoError) -> Self { arbitrary() }
+}
+impl From<IoError> for Error {
+//@extract errors::From<IoError>::from | src/errors.rs :: impl From<IoError> for Error :: fn from | serves=C18
+    fn from(error: IoError) -> (r: Error)
+        ensures r is Io
+    {
+        Self::Io(Arc::new(error))
+    }
+//@end
+}
 impl From<SyntaxError> for Error {
 //@extract errors::From<SyntaxError>::from | src/errors.rs :: impl From<SyntaxError> for Error :: fn from | serves=C01,C03
     fn from(error: SyntaxError) -> (r: Self)
@@ -441,6 +457,18 @@ impl<'a> BytesText<'a> {
     }
 //@end
 }
+//@extract events::BytesText::Deref | src/events/mod.rs :: impl<'a> Deref for BytesText<'a> | serves=C03
+impl<'a> Deref for BytesText<'a> {
+    type Target = [u8];
+
+    fn deref(&self) -> (r: &[u8])
+        ensures r@ == self.content@
+    {
+        proof { axiom_cow_bytes(&self.content); }
+        &self.content
+    }
+}
+//@end
 impl<'a> BytesCData<'a> {
 //@extract events::BytesCData::wrap | src/events/mod.rs :: impl<'a> BytesCData<'a> :: fn wrap | serves=C01
  fn wrap<C: Into<Cow<'a, [u8]>>>(content: C, decoder: Decoder) -> (r: Self)
